@@ -62,7 +62,10 @@ func (exec *Executor) executeItemOptUnwrapResult(
 		for _, item := range seq.list {
 			switch item := item.(type) {
 			case []any:
-				_, _ = exec.executeItemUnwrapTargetArray(ctx, nil, item, found)
+				res, err := exec.executeItemUnwrapTargetArray(ctx, nil, item, found)
+				if res.failed() {
+					return res, err
+				}
 			default:
 				found.append(item)
 			}
